@@ -421,20 +421,18 @@ Section Sim.
            | Ok _ = _ => injection H as <-; eapply ok_here; reflexivity
            end).
     (* the only case left: list + list *)
-    - destruct l0 as [|q0 l0]; [discriminate|]. injection H as <-.
+    - injection H as <-.
       apply vrel_list in Ha, Hb. destruct Ha as (a1 & c1 & -> & Hn1 & Hc1). destruct Hb as (a2 & c2 & -> & Hn2 & Hc2).
       pose proof (vrels_length _ _ _ Hc1) as L1. pose proof (vrels_length _ _ _ Hc2) as L2.
-      assert (Hall : vrels (arrays st) (l ++ q0 :: l0) (c1 ++ c2)) by (now apply Forall2_app).
-      change (apply_bin d (S f) Add (VList (Slice a1 0 (length l) (length l))) (VList (Slice a2 0 (length (q0 :: l0)) (length (q0 :: l0)))) st)
-        with (let '(r, st1) := list_add d (Slice a1 0 (length l) (length l)) (list_items d st (Slice a2 0 (length (q0 :: l0)) (length (q0 :: l0)))) st in
+      assert (Hall : vrels (arrays st) (l ++ l0) (c1 ++ c2)) by (now apply Forall2_app).
+      change (apply_bin d (S f) Add (VList (Slice a1 0 (length l) (length l))) (VList (Slice a2 0 (length l0) (length l0))) st)
+        with (let '(r, st1) := list_add d (Slice a1 0 (length l) (length l)) (list_items d st (Slice a2 0 (length l0) (length l0))) st in
               Ok (VList r, st1)).
       rewrite (list_items_rel d st a2 _ c2 Hn2 L2).
       assert (Hadd : list_add d (Slice a1 0 (length l) (length l)) c2 st =
                      (Slice (length (arrays st)) 0 (length (c1 ++ c2)) (length (c1 ++ c2)), st +a [c1 ++ c2])).
       { unfold list_add. destruct d.
-        - cbn [s_len s_cap s_arr s_off]. rewrite (list_items_rel Asp st a1 _ c1 Hn1 L1).
-          replace (Nat.leb (length l + length c2) (length l)) with false
-            by (symmetry; apply Nat.leb_gt; rewrite L2; cbn [length]; lia).
+        - cbn [s_len]. rewrite (list_items_rel Asp st a1 _ c1 Hn1 L1).
           replace (length l + length c2)%nat with (length (c1 ++ c2)) by (rewrite app_length; lia).
           apply alloc_exact.
         - rewrite (list_items_rel Py st a1 _ c1 Hn1 L1). apply alloc_zero. }
